@@ -25,9 +25,40 @@ Qed.
 Definition series_desc_ok (series : bool) (code len : Z) : Prop :=
   series = true -> code <> 0 /\ (len = 0 -> code = 7).
 
+(* the payload size in bytes per sample, without the cap of Record.value_payload *)
+Definition payload_size (code len : Z) : option nat :=
+  if code =? 0 then Some 0%nat
+  else if code =? 1 then Some (Z.to_nat len)
+  else if code =? 2 then Some (2 * Z.to_nat len)%nat
+  else if (code =? 3) || (code =? 5) then Some (4 * Z.to_nat len)%nat
+  else if code =? 7 then Some (Z.to_nat len)
+  else None.
+
+Lemma znat_to_nat : forall cap len, 0 <= len -> (Z.to_nat len <= cap)%nat -> znat cap len = Z.to_nat len.
+Proof. intros cap len H0 H. rewrite <- (Z2Nat.id len H0) at 1. apply znat_id. exact H. Qed.
+
+Lemma value_payload_cap : forall cap code len k, 0 <= len ->
+  payload_size code len = Some k -> (k <= cap)%nat -> value_payload cap code len = Some k.
+Proof.
+  intros cap code len k H0 Hk Hc. unfold payload_size in Hk. unfold value_payload.
+  destruct (code =? 0); [exact Hk|].
+  destruct (code =? 1); [inversion Hk as [X]; rewrite znat_to_nat by lia; reflexivity|].
+  destruct (code =? 2); [inversion Hk as [X]; rewrite znat_to_nat by lia; reflexivity|].
+  destruct ((code =? 3) || (code =? 5)); [inversion Hk as [X]; rewrite znat_to_nat by lia; reflexivity|].
+  destruct (code =? 7); [inversion Hk as [X]; rewrite znat_to_nat by lia; reflexivity|discriminate].
+Qed.
+
+Lemma value_payload_some : forall cap code len k,
+  payload_size code len = Some k -> exists k', value_payload cap code len = Some k'.
+Proof.
+  intros cap code len k Hk. unfold payload_size in Hk. unfold value_payload.
+  destruct (code =? 0); [eauto|]. destruct (code =? 1); [eauto|]. destruct (code =? 2); [eauto|].
+  destruct ((code =? 3) || (code =? 5)); [eauto|]. destruct (code =? 7); [eauto|discriminate].
+Qed.
+
 Lemma typed_sd : forall series mult code len d payload k,
   valid_code code = true -> 0 <= len <= 2147483647 -> enc_type code len = Ok d ->
-  value_payload code len = Some k -> length payload = (mult * k)%nat ->
+  payload_size code len = Some k -> length payload = (mult * k)%nat ->
   series_desc_ok series code len ->
   sd series mult (d ++ payload).
 Proof.
@@ -37,7 +68,15 @@ Proof.
   { destruct series; [|reflexivity]. destruct (Hs eq_refl) as [A B]. cbn [andb].
     destruct (code =? 0) eqn:E0; [lia|]. cbn [orb].
     destruct (len =? 0) eqn:E1; [|reflexivity]. rewrite (B ltac:(lia)). reflexivity. }
-  rewrite Eb. rewrite Hk. rewrite take_app by exact Hp.
+  rewrite Eb.
+  assert (exists k', value_payload (S (length (payload ++ rest))) code len = Some k' /\
+                     (mult * k' = mult * k)%nat) as [k' [Ek' Em]].
+  { destruct mult as [|mult'].
+    - destruct (value_payload_some (S (length (payload ++ rest))) code len k Hk) as [k' Ek'].
+      exists k'. split; [exact Ek'|reflexivity].
+    - exists k. split; [|reflexivity]. apply value_payload_cap; [lia|exact Hk|].
+      rewrite app_length. nia. }
+  rewrite Ek'. rewrite Em. rewrite take_app by exact Hp.
   replace (length (d ++ payload ++ rest) - length rest)%nat with (length (d ++ payload))
     by (rewrite !app_length; lia).
   rewrite app_assoc. rewrite take_app by reflexivity. reflexivity.
@@ -52,7 +91,7 @@ Proof.
 Qed.
 
 Lemma payload_int : forall w len, 0 <= len ->
-  value_payload (wcode w) len = Some (wbytes w * Z.to_nat len)%nat.
+  payload_size (wcode w) len = Some (wbytes w * Z.to_nat len)%nat.
 Proof. intros w len H. destruct w; cbn; f_equal; lia. Qed.
 
 Lemma enc_type_bound : forall code len d, enc_type code len = Ok d -> len <= 2147483647.
@@ -325,7 +364,8 @@ Proof.
       exists (kb ++ vb ++ blk). split.
       * cbn [map lift fst snd enc_fields]. unfold index_of. rewrite Hi. cbn [bind].
         rewrite Ek. cbn [bind]. fold lift. rewrite Eb. cbn [bind]. reflexivity.
-      * cbn [length dec_fields]. rewrite <- !app_assoc. rewrite Dk. rewrite Nat2Z.id.
+      * cbn [length dec_fields]. rewrite <- !app_assoc. rewrite Dk.
+        rewrite znat_id by (pose proof (slot_lt _ _ _ (proj1 W _ _ Hi)) as L; apply Nat.lt_le_incl; exact L).
         rewrite (proj1 W _ _ Hi). rewrite (Hs k vb (or_introl eq_refl) (blk ++ rest)).
         rewrite Db.
         assert (dup && has_key k fs = false) as Eh.
@@ -338,8 +378,8 @@ Qed.
 (* c10_record_roundtrip: every record of the modelled shape that the writer accepts is read
    back with the same site head, the same INFO keys and value blocks, the same FORMAT keys and
    series blocks *)
-Lemma record_full_roundtrip : forall strings contigs s infos fmts (has_rows : bool) rest,
-  wf strings -> wf contigs ->
+Lemma record_full_roundtrip : forall strings contigs s infos fmts (has_rows : bool) hdr_samples rest,
+  wf strings -> wf contigs -> s_n_sample s <= hdr_samples ->
   site_ok strings contigs s (Z.of_nat (length infos)) (Z.of_nat (length fmts)) ->
   (forall k vb, In (k, vb) (infos ++ fmts) ->
      exists i, get_index_of strings k = Some i /\ Z.of_nat i <= 2147483647) ->
@@ -350,10 +390,10 @@ Lemma record_full_roundtrip : forall strings contigs s infos fmts (has_rows : bo
      Z.of_nat (length sb) <= 4294967295) ->
   (forall fb, enc_fields strings (map lift fmts) = Ok fb -> Z.of_nat (length fb) <= 4294967295) ->
   exists bs, enc_record strings contigs s (map lift infos) (map lift fmts) has_rows = Ok bs /\
-    dec_record strings contigs (bs ++ rest)
+    dec_record strings contigs hdr_samples (bs ++ rest)
     = Some (head_of s (Z.of_nat (length infos)) (Z.of_nat (length fmts)), infos, fmts, rest).
 Proof.
-  intros strings contigs s infos fmts has_rows rest Ws Wc Hok Hk Hsi Hnd Hsf Hrows Hsb Hfb.
+  intros strings contigs s infos fmts has_rows hdr_samples rest Ws Wc Hhs Hok Hk Hsi Hnd Hsf Hrows Hsb Hfb.
   destruct (fields_walk strings 1 true infos [] Ws) as [ib [Ei Di]];
     [intros k vb Hin; apply (Hk k vb); apply in_or_app; left; exact Hin|exact Hsi|intros _; exact Hnd|].
   destruct (fields_walk strings (Z.to_nat (s_n_sample s)) false fmts [] Ws) as [fb0 [Ef Df]];
@@ -371,5 +411,6 @@ Proof.
   destruct R as [bs [sb [Er [Dfr Dh]]]].
   exists bs. split; [exact Er|].
   unfold dec_record. rewrite Dfr. rewrite Dh. cbn [h_n_info h_n_fmt h_n_sample head_of].
+  destruct (hdr_samples <? s_n_sample s) eqn:Ehs; [lia|].
   rewrite !Nat2Z.id. rewrite app_nil_r in Di. rewrite Di. rewrite Dfb. reflexivity.
 Qed.
